@@ -297,7 +297,12 @@ func runSweep(c *Ctx, mode string) {
 				}
 			}
 			if c.Thorough() {
-				picked = sweepConsumers
+				// every result gets the type-directed consumers and a rotating quarter of the others (all of them for
+				// every result would take hours; each consumer still meets every kind of result many times)
+				k := c.Rng.Intn(len(sweepConsumers))
+				for j := 0; j < 3; j++ {
+					picked = append(picked, sweepConsumers[(k+j)%len(sweepConsumers)])
+				}
 			} else if c.Rng.Intn(4) == 0 {
 				k := c.Rng.Intn(len(sweepConsumers))
 				picked = append(picked, sweepConsumers[k], sweepConsumers[(k+1)%len(sweepConsumers)])
@@ -388,12 +393,15 @@ func runSweep(c *Ctx, mode string) {
 				if quick && c.Rng.Intn(6) != 0 {
 					continue
 				}
+				if !quick && c.Rng.Intn(2) != 0 {
+					continue // thorough: half of the arguments per property (three times the quick tier)
+				}
 				if light && quick && c.Rng.Intn(2) != 0 {
 					continue
 				}
 				call(fmt.Sprintf("%s(p%d)", expr, a), "arity1")
 				for _, b := range argIdx {
-					if c.Rng.Intn(map[bool]int{true: 400, false: 40}[quick]) != 0 {
+					if c.Rng.Intn(map[bool]int{true: 400, false: 150}[quick]) != 0 {
 						continue
 					}
 					call(fmt.Sprintf("%s(p%d, p%d)", expr, a, b), "arity2")
